@@ -705,3 +705,23 @@ def apalache(name, module_path, init, inv, length, timeout=900):
     if not ok and "EXITCODE: ERROR (12)" not in p.stdout and "violat" not in p.stdout.lower():
         raise ToolError(f"apalache failed on {name}:\n" + p.stdout[-1500:])
     return ok
+
+
+def tlapm(name, module_path, timeout=900):
+    """Runs the TLA+ proof manager on a module; returns (proved, total).  A proof that does not go through is a tool error of the
+    design-level part (the obligations are fixed theorems of the specification, not verdicts about the code)."""
+    wd = os.path.join(WORK, "tlapm", name)
+    shutil.rmtree(wd, ignore_errors=True)
+    os.makedirs(wd, exist_ok=True)
+    cmd = ["tlapm", "--threads", "4", "--cleanfp", "--cache-dir", wd, module_path]
+    try:
+        p = subprocess.run(cmd, cwd=wd, stdout=subprocess.PIPE, stderr=subprocess.STDOUT, text=True, timeout=timeout)
+    except subprocess.TimeoutExpired:
+        raise ToolError(f"tlapm timeout on {name}")
+    m = re.search(r"All (\d+) obligations? proved", p.stdout)
+    if m:
+        return int(m.group(1)), int(m.group(1))
+    m = re.search(r"(\d+)/(\d+) obligations? failed", p.stdout)
+    if m:
+        return int(m.group(2)) - int(m.group(1)), int(m.group(2))
+    raise ToolError(f"tlapm failed on {name}:\n" + p.stdout[-1500:])
